@@ -202,7 +202,7 @@ impl Check for C13 {
         tier.pick(10_000, 200_000)
     }
     fn required_counters(&self, _tier: Tier) -> Vec<&'static str> {
-        vec!["mut:content", "mut:signature", "proof:faulty", "expiry:judged", "historical:judged", "node:duty-events", "node:own-quote-forged", "node:history-steps", "node:late-older-quotes", "node:inconsistent-quotes", "node:peer-left-the-routing-table-between-quotes", "historical:later-quote-dated-ahead-of-our-clock", "realnet:quotes-from-real-nodes"]
+        vec!["mut:content", "mut:signature", "proof:faulty", "expiry:judged", "historical:judged", "node:duty-events", "node:own-quote-forged", "node:history-steps", "node:late-older-quotes", "node:inconsistent-quotes", "node:peer-left-the-routing-table-between-quotes", "historical:later-quote-dated-ahead-of-our-clock"]
     }
     fn lane_cases(&self, tier: Tier) -> u64 {
         tier.pick(6, 48)
